@@ -332,7 +332,11 @@ func walkHistory(prop string, res *RunResult, onQuery func(m *LogModel, op *plan
 		}
 		ir := res.Incs[ii]
 		if ab := ir.Abnormal(); ab != "" && ab != "harness" && ab != "wall-timeout" {
-			vs = append(vs, Violation{Sig: prop + ":node-" + ab + ":" + ir.PanicSite(), Msg: fmt.Sprintf("incarnation %d ended abnormally (%s): %s", ii, ab, trimTo(ir.Stderr, 1500))})
+			site := ir.PanicSite()
+			if ab == "hang" {
+				site = ir.HangKind()
+			}
+			vs = append(vs, Violation{Sig: prop + ":node-" + ab + ":" + site, Msg: fmt.Sprintf("incarnation %d ended abnormally (%s): %s", ii, ab, trimTo(ir.Stderr, 1500))})
 		}
 		if b := ir.Get("boot"); b != nil && b.Err != "" {
 			vs = append(vs, Violation{Sig: prop + ":boot-failed", Msg: b.Err})
